@@ -198,10 +198,11 @@ func runCase(c chainCase, tol tolerance) (fail string, nonTrivial bool) {
 		u.addBlock(n.cfg, g)
 	}
 	var chain []connected
-	if c.Cfg.Free {
-		lib.Class("variant:free")
-	} else {
-		lib.Class("variant:paid")
+	for name, on := range map[string]bool{"variant:free": c.Cfg.Free, "variant:paid": !c.Cfg.Free, "variant:leveldb": c.Cfg.LevelDB,
+		"variant:memdb": !c.Cfg.LevelDB, "variant:quickIndex": c.Cfg.Quick} {
+		if on {
+			lib.Class(name)
+		}
 	}
 	for bi, specs := range c.Blocks {
 		parent := n.tip()
@@ -453,8 +454,8 @@ func genSimple(t *rapid.T, free bool, label string) txSpec {
 			s.To = rapid.IntRange(0, nTargets()-1).Draw(t, label+"to")
 		}
 	case "toexec", "withdraw":
-		s.Amount = rapid.SampledFrom([]int64{1, 1e5, 1e7, 1e8, 1e12}).Draw(t, label+"amount")
-		s.Exec = rapid.SampledFrom(execNames[:2]).Draw(t, label+"exec")
+		s.Amount = rapid.SampledFrom([]int64{1, 1e5, 1e7, 1e12}).Draw(t, label+"amount")
+		s.Exec = rapid.SampledFrom([]string{"manage", "manage", "manage", "none"}).Draw(t, label+"exec")
 	case "none":
 		s.To = rapid.IntRange(0, nTargets()-1).Draw(t, label+"to")
 		s.Value = rapid.SampledFrom([]string{"", "x", "payload"}).Draw(t, label+"payload")
@@ -470,7 +471,8 @@ func genSimple(t *rapid.T, free bool, label string) txSpec {
 }
 
 func genCase(t *rapid.T) chainCase {
-	c := chainCase{Cfg: variant{Free: rapid.IntRange(0, 2).Draw(t, "free") == 0, Quick: rapid.IntRange(0, 3).Draw(t, "quick") != 0}}
+	c := chainCase{Cfg: variant{Free: rapid.IntRange(0, 2).Draw(t, "free") == 0, Quick: rapid.IntRange(0, 3).Draw(t, "quick") != 0,
+		LevelDB: rapid.IntRange(0, 7).Draw(t, "leveldb") == 7}}
 	nb := rapid.IntRange(1, lib.Pick(4, 6)).Draw(t, "blocks")
 	for b := 0; b < nb; b++ {
 		var specs []txSpec
@@ -481,8 +483,8 @@ func genCase(t *rapid.T) chainCase {
 				if rapid.IntRange(0, 9).Draw(t, "fund") < 7 {
 					specs = append(specs, txSpec{Kind: "transfer", From: 0, To: k, Fee: 1e5,
 						Amount: rapid.SampledFrom(fundAmounts).Draw(t, "fundAmount")})
-					if rapid.Bool().Draw(t, "deposit") { // ... and lets it deposit into an executor, so that withdrawals can succeed
-						specs = append(specs, txSpec{Kind: "toexec", From: k, Exec: rapid.SampledFrom(execNames[:2]).Draw(t, "depositExec"), Fee: 1e5, Amount: 1e7})
+					if rapid.IntRange(0, 4).Draw(t, "deposit") > 0 { // ... and lets it deposit into an executor, so that withdrawals can succeed
+						specs = append(specs, txSpec{Kind: "toexec", From: k, Exec: "manage", Fee: 1e5, Amount: 1e7})
 					}
 				}
 			}
